@@ -141,3 +141,18 @@ Fixpoint bracket_on_result (prio : list vec -> list Q) (rf : Q)
 Definition moasha_on_trial_result (prio : list vec -> list Q) (rf max_t : Q)
            (b : bracket) (t : Z) (cur_iter : Q) (m : vec) : bracket * decision :=
   if Qleb max_t cur_iter then (b, STOP) else bracket_on_result prio rf b t cur_iter m.
+
+(* ---- NonDominatedPriority.priority_unsafe (multiobjective_priority.py, after fix bd08f9a) ----
+     sorted_indices = nondominated_sort(X, dim, max_items)
+     priorities = np.full(n, len(sorted_indices)); priorities[sorted_indices] = arange(len(sorted_indices)) *)
+Fixpoint index_of (j : nat) (l : list nat) (i : nat) : option nat :=
+  match l with
+  | [] => None
+  | x :: r => if Nat.eqb x j then Some i else index_of j r (S i)
+  end.
+
+Definition priority_of_sorted (sorted : list nat) (n : nat) : list Q :=
+  map (fun j => match index_of j sorted 0 with
+                | Some p => inject_Z (Z.of_nat p)
+                | None => inject_Z (Z.of_nat (length sorted))
+                end) (seq 0 n).
